@@ -3,6 +3,8 @@ package parser
 import (
 	"errors"
 
+	"github.com/ajitpratap0/GoSQLX/pkg/sql/ast"
+
 	goerrors "github.com/ajitpratap0/GoSQLX/pkg/errors"
 	"github.com/ajitpratap0/GoSQLX/pkg/sql/token"
 	vx "github.com/ajitpratap0/GoSQLX/zzvx"
@@ -50,6 +52,27 @@ func vxSoup(prefix string, tab *VxTable, maxK int) {
 		}
 	}
 	vx.Assert("C01.no_nil_statement", n == len(tree.Statements))
+	// C14 on parser-produced trees: every node pointer reachable through the tree's fields is visited
+	reach := vx.Reach(tree, (*ast.Node)(nil))
+	var seen []any
+	ast.Inspect(tree, func(nd ast.Node) bool {
+		if nd != nil {
+			seen = append(seen, nd)
+		}
+		return true
+	})
+	for k, r := range reach {
+		if vx.SameObject(r, tree) {
+			continue
+		}
+		hit := false
+		for _, sn := range seen {
+			if vx.SameObject(r, sn) {
+				hit = true
+			}
+		}
+		vx.Assertf("C14.tree_visits", hit, "node #%d of the parsed tree (%s) is never visited by Inspect", k, vx.Dump(r))
+	}
 }
 
 // vxCheckError: C13 — structured error, parser code family, message, location.
